@@ -71,6 +71,11 @@ CHECKS = {
          "Credential sets over the quantifier's users and passwords (size 0..3, wildcard, entry without ':') are configured into fresh service instances; attempt sequences up to length 4 with gated-operation probes around every attempt are executed; replies and events are compared with the reference model. Thorough is exhaustive for sets of size <=1 x sequences <=2.",
          "LDAP anonymous bind = success without login. What gated operations do after a successful login is not judged.",
          "DESIGN.md §5 C12"),
+ "C13": ("exploration",
+         "runtime monitoring: structurally generated ClientHellos (record fragmentation x TCP segmentation) sent to the real https service through the dispatcher; the digest and server name in the connection's event are compared with an independent JA3 implementation over the raw bytes sent; GREASE-only variants must get equal digests",
+         "The reference JA3 is written from the JA3 specification and parses the bytes the harness sent; it shares no code with honeytrap's TLS fork.",
+         "Hellos are well-formed for the fork's parser; the handshake is not completed (the failed-handshake event carries the fields).",
+         "DESIGN.md §5 C13"),
 }
 
 NOT_YET = {
